@@ -189,7 +189,7 @@ fn specs(tier: Tier) -> Vec<EncSpec> {
         (2, false, true),
         (4, true, true),
     ];
-    let placements = [Placement::LevelOrder, Placement::DepthFirst, Placement::ChildrenFirst, Placement::Padded];
+    let placements = [Placement::LevelOrder, Placement::DepthFirst, Placement::ChildrenFirst, Placement::Padded, Placement::Ragged];
     let fanouts: &[usize] = if quick { &[2, 8] } else { &[2, 3, 8] };
     let chrom_blocks: &[usize] = &[2, 3, 64];
     let mut contents: Vec<(bool, Vec<EncChrom>)> = wig_contents().into_iter().map(|c| (false, c)).collect();
@@ -570,7 +570,7 @@ impl Check for C10 {
                     let want: Vec<(u32, u32, u32)> = ez.1.iter().map(|r| (r.chrom, r.start, r.end)).collect();
                     ok &= got == want;
                 }
-                let structural: Vec<&String> = d.problems.iter().filter(|p| !(p.contains("not contiguous") || p.contains("neither the chromosome tree") || p.contains("outside [fullDataOffset") || p.contains("offsets data") || p.contains("bigWig with non-zero") || p.contains("trailing magic"))).collect();
+                let structural: Vec<&String> = d.problems.iter().filter(|p| !(p.contains("not contiguous") || p.contains("neither the chromosome tree") || p.contains("outside [fullDataOffset") || p.contains("offsets data") || p.contains("bigWig with non-zero") || p.contains("trailing magic") || (spec.placement == Placement::Ragged && p.contains("unbalanced R-tree")))).collect();
                 if !ok || !structural.is_empty() {
                     out.fail("harness_panic", &[], format!("encoder/decoder cross-check failed: ok={} problems={:?}", ok, structural));
                     return;
